@@ -27,7 +27,7 @@ fn law_violation(law: &str, tys: &[&Ty], extra: &str) -> Violation {
 /// with an unrelated member) the three routes answer what `as_type(v).matches(T)` answers - so
 /// the relation the checker reasons with is the one the run-time tests implement, whatever the
 /// checker knows about the tested expression.
-fn language_membership() -> (u64, Vec<Violation>) {
+pub fn language_membership() -> (u64, Vec<Violation>) {
     use simplesl::variable::Variable;
     use simplesl::{Code, Interpreter};
     let mut tys: Vec<Ty> = universe::u1();
